@@ -10,7 +10,10 @@ the Spec value):
   C  Buffer           simulated on SimulationPorts (widths 0..6 x all masks x all legal direction pairs)
   D  FFBuffer         simulated with hand-driven clocks (one shared domain, or two named domains)
   E  netlists         buffers on real IOPorts through Fragment.get / build_netlist; the IOBuffer
-                      cells are collected and the netlist is evaluated (pads, `i`)
+                      cells are collected and the netlist is evaluated (pads, `i`); model side:
+                      `Buffer.single` / `Buffer.diff` and, for FFBuffer, `FFBuffer.realRun` from power-on;
+                      Spec side: `padClaims` (which pads carry a cell - a differential *input* has none on
+                      its `n` half), `padBuffer`, `ffRunPads`
 """
 import concurrent.futures as cf
 import itertools
@@ -859,8 +862,11 @@ def _run(chk, rng, quick, workers, P):
         "amaranth.sim is the reference for what an elaborated Buffer/FFBuffer computes (clock edges driven by hand, "
         "observations after each event with the inputs still applied)",
         "netlists are evaluated by a 60-line interpreter of _nir cells (Top, Operator ~ ^ & | m, FlipFlop, IOBuffer) written for this check",
-        "DifferentialPort with the generic Buffer: an input buffer claims only the `p` half (the code's documented fallback); "
-        "the model and the netlist comparison follow that",
+        "DifferentialPort with the generic Buffer: an input buffer claims only the `p` half (the code's vendor-neutral lowering; "
+        "theorems buffer_real_diff_input / buffer_real_diff_use say so: the `n` pads of a differential input carry no cell, "
+        "so 'used by exactly one cell' holds for them as 'at most one'); the model, the Spec's padClaims and the netlist comparison follow that",
+        "FFBuffer on real ports: the netlist is evaluated at power-on and after one clock edge with the inputs held and compared with "
+        "FFBuffer.realRun (theorems ffbuffer_real_registers / _one_stage); where the FlipFlop cells sit in the netlist is not modelled",
         "DDRBuffer is covered only as far as its constructor (it cannot be elaborated without a platform)",
     ]
 
